@@ -81,11 +81,11 @@ def jsonOps : OpTable
     pure (encStr (jsonStr s))
   | "ser" => some do
     let i ← indentP; let d ← sdepP
-    pure ("ok " ++ encStr (serialize i d))
+    pure ("ok " ++ encStr (tdSerialize i d))
   | "sern" => some do
     let i ← indentP; let n ← node
     match sdepOfDepNode n with
-    | some d => pure ("ok " ++ encStr (serialize i d))
+    | some d => pure ("ok " ++ encStr (tdSerialize i d))
     | none => throw "sern: not a dependency node"
   | "scan_raw" => some do
     let h ← str
